@@ -199,6 +199,18 @@ fn values(thorough: bool) -> Vec<(i64, u64, i32)> {
 }
 
 fn case_roundtrip(p: &Pat, day: i64, nod: u64, off: i32, acc: &mut Acc) {
+    case_roundtrip_inner(p, day, nod, off, acc);
+    let h = crate::props::anchor::hash(&[day as u64, nod, off as u64, p.text.len() as u64]);
+    if h % 4 == 0 {
+        let pred = || json!({"pattern": p.text, "kind": p.kind, "day": day, "nod": nod.to_string(), "off": off, "text": ""});
+        crate::props::anchor::parse_light(p.kind, acc, "parse (purity probe)", &pred);
+        if h % 256 == 0 {
+            crate::props::anchor::text(acc, "parse (purity probe)", &pred);
+        }
+    }
+}
+
+fn case_roundtrip_inner(p: &Pat, day: i64, nod: u64, off: i32, acc: &mut Acc) {
     // filter to what the pattern can carry (the quantifier's side conditions)
     let off = if !p.zone { 0 } else { off };
     if p.zone && !p.zone_secs && off % 60 != 0 {
